@@ -213,12 +213,29 @@ impl MinCostFlowSolver {
         let mut cost_overflow_checker: Cost = 0; // computes the maximal cost for the worst
                                                  // feasible flow
 
+        // stand-in for an unbounded formation: all trips and maintenance slots of this type
+        // together never require more vehicles than this, so it does not cut off any flow
+        let unbounded_formation_count = (self
+            .network
+            .service_nodes(vehicle_type)
+            .map(|service_trip| {
+                self.network
+                    .number_of_vehicles_required_to_serve(vehicle_type, service_trip)
+                    as UpperBound
+            })
+            .sum::<UpperBound>()
+            + maintenance_slots
+                .values()
+                .map(|&count| count as UpperBound)
+                .sum::<UpperBound>())
+        .max(100);
+
         let maximal_formation_count_for_vehicle_type = self
             .vehicle_types
             .get(vehicle_type)
             .unwrap()
             .maximal_formation_count()
-            .unwrap_or(100) as UpperBound;
+            .map_or(unbounded_formation_count, |limit| limit as UpperBound);
 
         // edges between nodes carry at most a full formation; edges from or to a maintenance slot
         // must also be able to carry all vehicles that are assigned to that slot
@@ -238,7 +255,7 @@ impl MinCostFlowSolver {
             let maximal_formation_count = self
                 .network
                 .maximal_formation_count_for(service_trip)
-                .unwrap_or(100) as UpperBound;
+                .map_or(unbounded_formation_count, |limit| limit as UpperBound);
             let left_rsnode = builder.add_node();
             let right_rsnode = builder.add_node();
             let trip_node = TripNode::ServiceOrMaintenance(service_trip);
